@@ -7,7 +7,7 @@
      0x0D and codes >= 0x7F only with l = 0; control codes never;
      identical character with equal or worse level: ignored;  otherwise the cell becomes (conv byte, l).
    write2 applies cell_after to two consecutive cells with the two bytes of a block. *)
-Require Import ObsRun Lemmas_TextProps Lemmas_ObsText.
+Require Import ObsRun Lemmas_TextProps Lemmas_ObsText Lemmas_Leaf.
 Local Open Scope Z_scope.
 
 (* type 0 (A and B): block D, PS thresholds / progressive flag, cells 2s and 2s+1 *)
@@ -69,6 +69,12 @@ Theorem C06_observer : forall conv lut h s o ret, reach conv lut h s -> wf_op o 
   obs_C06 conv (o :: h) (snap_of s) (snap_of (fst (step conv lut s o))) (snd (step conv lut s o)) ret = true.
 Proof. exact obs_C06_holds. Qed.
 Print Assumptions C06_observer.
+
+(* THE CODE ITSELF: rdsparser_string_calculate_error, translated from clang's typed AST on every run
+   (tools/cleaf.py -> GenLeaf.v), equals the model's calc_error for all 256 x 256 error-code pairs *)
+Theorem C06_code_level : forall i d, 0 <= i < 256 -> 0 <= d < 256 -> c_calc_error i d = calc_error i d.
+Proof. exact leaf_calc_error. Qed.
+Print Assumptions C06_code_level.
 
 Example C06_scenario : check_run_u (observer_u 6) scenario = true.
 Proof. vm_compute. reflexivity. Qed.
